@@ -269,7 +269,7 @@ pub fn finish_check(prop: &str, tier: &str, start: Instant, r: BResult) -> i32 {
     }
     if !r.violations.is_empty() {
         let all: Vec<String> = r.violations.iter().map(|v| v.message.clone()).collect();
-        let _ = std::fs::write(format!("/verif/target/violations_{}.txt", prop), all.join("\n"));
+        let _ = std::fs::write(format!("{}/violations_{}.txt", std::env::var("VERIF_EVIDENCE_DIR").unwrap_or_else(|_| "/verif/target".to_string()), prop), all.join("\n"));
     }
     let (head, dirty) = crate::props::repo_head_pub();
     let ev = json!({
@@ -299,8 +299,8 @@ pub fn finish_check(prop: &str, tier: &str, start: Instant, r: BResult) -> i32 {
         "wall_s": start.elapsed().as_secs_f64(),
         "violations": new_v,
     });
-    let _ = std::fs::create_dir_all("/verif/evidence");
-    let path = format!("/verif/evidence/{}.json", prop);
+    let _ = std::fs::create_dir_all(crate::explore::evidence_dir());
+    let path = format!("{}/{}.json", crate::explore::evidence_dir(), prop);
     if let Err(e) = std::fs::write(&path, serde_json::to_string_pretty(&ev).unwrap()) {
         eprintln!("MACHINERY FAILURE: cannot write evidence {}: {}", path, e);
         return 2;
